@@ -200,6 +200,10 @@ func runC04(p *Prog, r *Report) {
 	if want("C04.11") {
 		ruleTrSeqAfterFlush(p, r, "C04.11")
 	}
+	if want("C04.23") {
+		// replay restores the sequence counter past every replayed record (shared with C01)
+		ruleRecoveryRestoresSeq(p, r, "C04.23")
+	}
 	if want("C04.22") {
 		ruleResetEqualsNew(p, r, "C04.22")
 	}
